@@ -17,11 +17,22 @@ _CTX = decimal.Context(prec=400)
 
 # ---- bytes <-> text ------------------------------------------------------------------------------
 def s2b(s):
-    return list(s.encode("latin-1"))
+    """Text -> the bytes a UTF-8 file holds for it (STAR files are written / read with the default text encoding,
+    which the drivers require to be UTF-8 before they generate non-ASCII tokens)."""
+    return list(s.encode("utf-8", errors="surrogateescape"))
 
 
 def b2s(bs):
-    return bytes(bs).decode("latin-1")
+    return bytes(bs).decode("utf-8", errors="replace")
+
+
+def default_encoding_is_utf8():
+    import locale
+    import sys
+    if sys.flags.utf8_mode:
+        return True
+    enc = (locale.getpreferredencoding(False) or "").lower().replace("-", "").replace("_", "")
+    return enc == "utf8"
 
 
 def file_lines(path):
